@@ -436,24 +436,31 @@ static void apply_code(Heap &h, int c)
 }
 static size_t live_after(size_t L, int c) { return c < 4 ? L + 1 : c < 4 + (int)L ? L - 1 : L; }
 
+// top-level cases = all operation prefixes of length 3 (quick) / 4 (thorough); the live count after each
+// operation is known without running it, so the list is a pure function of the tier
+static int prefix_len() { return vf::thorough() ? 4 : 3; }
 struct Prefix
 {
-    int c[3];
+    int c[4];
 };
+static void gen_prefixes(std::vector<Prefix> &v, Prefix cur, int depth, size_t L)
+{
+    if (depth == prefix_len())
+    {
+        v.push_back(cur);
+        return;
+    }
+    for (int c = 0; c < nops(L); c++)
+    {
+        cur.c[depth] = c;
+        gen_prefixes(v, cur, depth + 1, live_after(L, c));
+    }
+}
 static std::vector<Prefix> &prefixes()
 {
     static std::vector<Prefix> v;
     if (v.empty())
-        for (int a = 0; a < nops(0); a++)
-        {
-            size_t L1 = live_after(0, a);
-            for (int b = 0; b < nops(L1); b++)
-            {
-                size_t L2 = live_after(L1, b);
-                for (int c = 0; c < nops(L2); c++)
-                    v.push_back(Prefix{{a, b, c}});
-            }
-        }
+        gen_prefixes(v, Prefix{{0, 0, 0, 0}}, 0, 0);
     return v;
 }
 static int enum_depth() { return vf::thorough() ? 7 : 6; }
@@ -484,10 +491,10 @@ static void enum_run(uint64_t idx)
 {
     const Prefix &p = prefixes()[idx];
     Heap h;
-    for (int i = 0; i < 3; i++)
+    for (int i = 0; i < prefix_len(); i++)
         apply_code(h, p.c[i]);
     g_nodes = 0;
-    dfs(h, enum_depth() - 3, idx + 1);
+    dfs(h, enum_depth() - prefix_len(), idx + 1);
     vf::count_bulk(g_nodes, g_nodes);
     VF_OK("heap: every history of the enumerated length, drained from every node");
     if (idx == 200)
@@ -496,13 +503,13 @@ static void enum_run(uint64_t idx)
 }
 VF_SUITE(heap_enum, enum_count, enum_run)
 
-// the first three levels themselves (histories of length 0..2 are only prefixes above): run them once, checked
+// the levels above the prefixes (histories shorter than a prefix): run them once, checked
 static uint64_t enum_short_count() { return 1; }
 static void enum_short_run(uint64_t)
 {
     Heap h;
     g_nodes = 0;
-    dfs(h, 2, 7);
+    dfs(h, prefix_len() - 1, 7);
     vf::count_bulk(g_nodes, g_nodes - 1);
 }
 VF_SUITE(heap_enum_short, enum_short_count, enum_short_run)
